@@ -87,7 +87,153 @@ def analyse(events, deadlock):
     return "other"
 
 
-def run(ctx):
+def execute_runs(ctx, runs, prop):
+    """Run the driver for every entry of `runs` = (mode, exe, scenario file, args, total, {id: scenario}), handle deaths,
+    validate every recorded execution against MutexMon (PROP = prop) and turn rejections into violations."""
+    from concurrent.futures import ThreadPoolExecutor
+    rep = ctx.rep
+    menv = {"PROP": prop}
+    base_traces, base_events = rep.traces, rep.events
+    vpool = ThreadPoolExecutor(max_workers=3)
+    pending = []
+    sc_f = None
+
+    def validate(mode, lp):
+        t1 = time.time()
+        n, rejected = vlib.validate_batched(ctx, "sync", "MutexMon", lp, env=menv, max_reports=2)
+        nev = sum(1 for ln in open(lp) if ln.strip())
+        return n, nev, rejected, time.time() - t1
+
+    def selfcheck(lp):
+        """The monitor must reject a recorded trace from which one Unlock event has been removed."""
+        exs = [e for e in vlib.split_executions(lp)[:60]]
+        lines = [ln for _, ls in exs for ln in ls]
+        idx = [i for i, ln in enumerate(lines) if '"e":"Unlock"' in ln]
+        if not idx:
+            return None
+        cp = os.path.join(ctx.work, "corrupt.ndjson")
+        with open(cp, "w") as f:
+            f.writelines(lines[:idx[len(idx) // 2]] + lines[idx[len(idx) // 2] + 1:])
+        return vlib.validate_trace(ctx, "sync", "MutexMon", cp, env=menv)["accepted"]
+
+    def found_so_far():
+        n = sum(1 for v in rep.violations if v.get("sched") == "plain")
+        for _, _, _, fu in pending:
+            if fu.done() and not fu.exception():
+                n += len(fu.result()[2])
+        return n
+
+    for mode, xe, scnfile, args, total, scnmap in runs:
+        t0 = time.time()
+        if not mode.startswith("inline") and mode != "guided-v1" and found_so_far() >= 3:
+            rep.note("%s: skipped (violations already found in earlier runs)" % mode)
+            continue
+        lp = os.path.join(ctx.work, "log_%s.ndjson" % mode)
+        sums, deaths = vlib.run_batches(ctx, xe, ["--scenarios", scnfile] + args, total, lp, timeout=3000,
+                                        max_deaths=6 if mode.startswith("inline") else 12)
+        execs = sum(s["execs"] for s in sums)
+        rep.evaluations += execs
+        for s in sums:
+            if mode.startswith("guided"):
+                rep.drift += s["drift"]
+                rep.unguided += s["unguided"]
+                if s.get("first_drift"):
+                    rep.note("%s drift: %s" % (mode, s["first_drift"]))
+                if s.get("obs_mismatch"):
+                    rep.note("%s: %d executions whose final observation differs from the specification's (sent to the monitor)" % (mode, s["obs_mismatch"]))
+        dl = {}
+        if os.path.exists(lp + ".dl"):
+            for ln in open(lp + ".dl"):
+                try:
+                    d = json.loads(ln)
+                    dl[d["x"]] = d
+                except Exception:
+                    pass
+        parts, npart = {}, 0
+        if os.path.exists(lp + ".partial"):
+            for ln in open(lp + ".partial"):
+                try:
+                    evs = json.loads(ln)["events"]
+                    if evs:
+                        parts[evs[0].get("x")] = evs
+                except Exception:
+                    pass
+        for d in deaths:
+            unit = d["x"]
+            if d["event"] == "Deadlock" and prop != "C15":
+                rep.oos.append(dict(kind="Deadlock", mode=mode, unit=unit, what="deadlock of the controlled execution (a C15 matter, not a %s clause)" % prop))
+            elif d["event"] == "Deadlock":
+                info = dl.get(unit, {})
+                sc = scnmap.get(info.get("scn")) or {}
+                cause = analyse(info.get("events", []), True)
+                rep.violation(dict(engine="mutex", mode=mode, event="Deadlock", unit=unit, k=info.get("k"), ver=sc.get("ver"),
+                                   sched=SCHED_NAME.get(sc.get("sched")), cause=cause, scenario=sc, level=info.get("level"),
+                                   schedule=info.get("sched"), sites=info.get("sites"), events=info.get("events"),
+                                   what="proven deadlock of the controlled execution (%s): every thread is blocked waiting for a lock "
+                                        "attempt that never completes although no party holds the mutex - lost wake-up / leaked lock; "
+                                        "v%s async_mutex, scenario %s, receiver scheduler %s, %s mode"
+                                        % (cause, sc.get("ver"), sc.get("name"), SCHED_NAME.get(sc.get("sched")), mode)))
+            else:
+                # the events recorded before the death must still be acceptable to the monitor (safety clauses only)
+                part = parts.get(unit)
+                if part and npart < 3:
+                    npart += 1
+                    pp = os.path.join(ctx.work, "partial_%s_%s.ndjson" % (mode, unit))
+                    with open(pp, "w") as f:
+                        for e in part:
+                            f.write(json.dumps(e) + "\n")
+                    vr = vlib.validate_trace(ctx, "sync", "MutexMon", pp, env=menv)
+                    if vr["prefix"] < vr["total"]:
+                        sc = scnmap.get(part[0].get("scn")) or {}
+                        rep.violation(dict(engine="mutex", mode=mode, event="MonitorReject", unit=unit, k=part[0].get("k"), ver=sc.get("ver"),
+                                           sched=SCHED_NAME.get(sc.get("sched")), cause="safety-clause-before-%s" % d["event"], scenario=sc,
+                                           what="MutexMon rejects event %d of the %d events recorded before a %s in %s mode (v%s async_mutex, "
+                                                "scenario %s, scheduler %s): %s" % (vr["prefix"] + 1, vr["total"], d["event"], mode, sc.get("ver"),
+                                                                                   sc.get("name"), SCHED_NAME.get(sc.get("sched")),
+                                                                                   json.dumps(part[vr["prefix"]]) if vr["prefix"] < len(part) else ""),
+                                           events=part, death=d.get("frame") or d.get("stderr_tail", "")[-300:]))
+                rep.oos.append(dict(kind=d["event"], mode=mode, unit=unit, asan=d.get("asan"), frame=d.get("frame"), where=d.get("where"),
+                                    access=d.get("access"), what="memory/crash event in the C15 engine (not a C15 clause): %s %s %s"
+                                                                 % (d["event"], d.get("asan", ""), d.get("frame", "")),
+                                    detail=d.get("stderr_tail", "")[-600:]))
+                rep.note("%s: %s in unit %s recorded as out-of-scope observation" % (mode, d["event"], unit))
+        rep.note("%s: %d executions, %d deaths, %.1fs" % (mode, execs, len(deaths), time.time() - t0))
+        pending.append((mode, lp, scnmap, vpool.submit(validate, mode, lp)))
+        if sc_f is None and prop == "C15" and mode == "guided-v1":
+            sc_f = vpool.submit(selfcheck, lp)
+    tot_n = tot_ev = 0
+    for mode, lp, scnmap, fu in pending:
+        n, nev, rejected, secs = fu.result()
+        tot_n += n
+        tot_ev += nev
+        for ex in vlib.split_executions(lp)[:400000]:
+            evs = ex[1]
+            if len(evs) > 3:
+                rep.distinct.add(hash("".join(evs[1:])))
+        for rj in rejected:
+            hdr = rj["events"][0] if rj["events"] else {}
+            sc = scnmap.get(hdr.get("scn")) or {}
+            cause = analyse(rj["events"], False)
+            rep.violation(dict(engine="mutex", mode=mode, event="MonitorReject", unit=rj["x"], k=hdr.get("k"), ver=sc.get("ver"),
+                               sched=SCHED_NAME.get(sc.get("sched")), cause=cause, scenario=sc,
+                               what="MutexMon (" + prop + " rules) rejects an execution recorded in %s mode at event %s of %s (v%s async_mutex, scenario %s, "
+                                    "scheduler %s, %s)" % (mode, rj.get("prefix"), rj.get("total"), sc.get("ver"), sc.get("name"),
+                                                           SCHED_NAME.get(sc.get("sched")), cause),
+                               events=rj["events"]))
+        rep.note("%s: %d executions validated by MutexMon in %.1fs, %d rejected" % (mode, n, secs, len(rejected)))
+        if mode == "random-l2" and n:
+            exs = vlib.split_executions(lp)
+            pick = [e for e in exs if any('"Done"' in x for x in e[1])] or exs
+            rep.sample(dict(kind="recorded-trace", events=[json.loads(x) for x in pick[0][1][:40]]))
+    acc = sc_f.result() if sc_f is not None else None
+    vpool.shutdown()
+    rep.traces, rep.events = base_traces + tot_n, base_events + tot_ev      # (the pool's increments may have raced)
+    if acc is True:
+        raise vlib.Broken("monitor self-check failed: MutexMon accepted a recorded trace with one Unlock event removed")
+    rep.note("monitor self-check: a recorded trace with one Unlock removed is %s" % ("rejected" if acc is False else "not available"))
+
+
+def run_c15(ctx):
     rep = ctx.rep
     quick = ctx.quick
     rep.assume("sequentially consistent interleavings at schedule-point granularity (x86-TSO hardware); the need for the "
@@ -200,141 +346,7 @@ def run(ctx):
         ("asan-random-l2", exe_asan, sp, ["--mode", "random", "--level", 2, "--seed", ctx.seed + 2000, "--cap", 20 if quick else 100], len(main), byid),
         ("inline-random", exe, spi, ["--mode", "random", "--level", 1, "--seed", ctx.seed, "--cap", 60 if quick else 600], len(inline), byid_inline),
     ]
-    base_traces, base_events = rep.traces, rep.events
-    vpool = ThreadPoolExecutor(max_workers=3)
-    pending = []
-
-    def validate(mode, lp):
-        t1 = time.time()
-        n, rejected = vlib.validate_batched(ctx, "sync", "MutexMon", lp, max_reports=2)
-        nev = sum(1 for ln in open(lp) if ln.strip())
-        return n, nev, rejected, time.time() - t1
-
-    def selfcheck(lp):
-        """The monitor must reject a recorded trace from which one Unlock event has been removed."""
-        exs = [e for e in vlib.split_executions(lp)[:60]]
-        lines = [ln for _, ls in exs for ln in ls]
-        idx = [i for i, ln in enumerate(lines) if '"e":"Unlock"' in ln]
-        if not idx:
-            return None
-        cp = os.path.join(ctx.work, "corrupt.ndjson")
-        with open(cp, "w") as f:
-            f.writelines(lines[:idx[len(idx) // 2]] + lines[idx[len(idx) // 2] + 1:])
-        return vlib.validate_trace(ctx, "sync", "MutexMon", cp)["accepted"]
-
-    def found_so_far():
-        n = sum(1 for v in rep.violations if v.get("sched") == "plain")
-        for _, _, _, fu in pending:
-            if fu.done() and not fu.exception():
-                n += len(fu.result()[2])
-        return n
-
-    for mode, xe, scnfile, args, total, scnmap in runs:
-        t0 = time.time()
-        if not mode.startswith("inline") and mode != "guided-v1" and found_so_far() >= 3:
-            rep.note("%s: skipped (violations already found in earlier runs)" % mode)
-            continue
-        lp = os.path.join(ctx.work, "log_%s.ndjson" % mode)
-        sums, deaths = vlib.run_batches(ctx, xe, ["--scenarios", scnfile] + args, total, lp, timeout=3000,
-                                        max_deaths=6 if mode.startswith("inline") else 12)
-        execs = sum(s["execs"] for s in sums)
-        rep.evaluations += execs
-        for s in sums:
-            if mode.startswith("guided"):
-                rep.drift += s["drift"]
-                rep.unguided += s["unguided"]
-                if s.get("first_drift"):
-                    rep.note("%s drift: %s" % (mode, s["first_drift"]))
-                if s.get("obs_mismatch"):
-                    rep.note("%s: %d executions whose final observation differs from the specification's (sent to the monitor)" % (mode, s["obs_mismatch"]))
-        dl = {}
-        if os.path.exists(lp + ".dl"):
-            for ln in open(lp + ".dl"):
-                try:
-                    d = json.loads(ln)
-                    dl[d["x"]] = d
-                except Exception:
-                    pass
-        parts, npart = {}, 0
-        if os.path.exists(lp + ".partial"):
-            for ln in open(lp + ".partial"):
-                try:
-                    evs = json.loads(ln)["events"]
-                    if evs:
-                        parts[evs[0].get("x")] = evs
-                except Exception:
-                    pass
-        for d in deaths:
-            unit = d["x"]
-            if d["event"] == "Deadlock":
-                info = dl.get(unit, {})
-                sc = scnmap.get(info.get("scn")) or {}
-                cause = analyse(info.get("events", []), True)
-                rep.violation(dict(engine="mutex", mode=mode, event="Deadlock", unit=unit, k=info.get("k"), ver=sc.get("ver"),
-                                   sched=SCHED_NAME.get(sc.get("sched")), cause=cause, scenario=sc, level=info.get("level"),
-                                   schedule=info.get("sched"), sites=info.get("sites"), events=info.get("events"),
-                                   what="proven deadlock of the controlled execution (%s): every thread is blocked waiting for a lock "
-                                        "attempt that never completes although no party holds the mutex - lost wake-up / leaked lock; "
-                                        "v%s async_mutex, scenario %s, receiver scheduler %s, %s mode"
-                                        % (cause, sc.get("ver"), sc.get("name"), SCHED_NAME.get(sc.get("sched")), mode)))
-            else:
-                # the events recorded before the death must still be acceptable to the monitor (safety clauses only)
-                part = parts.get(unit)
-                if part and npart < 3:
-                    npart += 1
-                    pp = os.path.join(ctx.work, "partial_%s_%s.ndjson" % (mode, unit))
-                    with open(pp, "w") as f:
-                        for e in part:
-                            f.write(json.dumps(e) + "\n")
-                    vr = vlib.validate_trace(ctx, "sync", "MutexMon", pp)
-                    if vr["prefix"] < vr["total"]:
-                        sc = scnmap.get(part[0].get("scn")) or {}
-                        rep.violation(dict(engine="mutex", mode=mode, event="MonitorReject", unit=unit, k=part[0].get("k"), ver=sc.get("ver"),
-                                           sched=SCHED_NAME.get(sc.get("sched")), cause="safety-clause-before-%s" % d["event"], scenario=sc,
-                                           what="MutexMon rejects event %d of the %d events recorded before a %s in %s mode (v%s async_mutex, "
-                                                "scenario %s, scheduler %s): %s" % (vr["prefix"] + 1, vr["total"], d["event"], mode, sc.get("ver"),
-                                                                                   sc.get("name"), SCHED_NAME.get(sc.get("sched")),
-                                                                                   json.dumps(part[vr["prefix"]]) if vr["prefix"] < len(part) else ""),
-                                           events=part, death=d.get("frame") or d.get("stderr_tail", "")[-300:]))
-                rep.oos.append(dict(kind=d["event"], mode=mode, unit=unit, asan=d.get("asan"), frame=d.get("frame"), where=d.get("where"),
-                                    access=d.get("access"), what="memory/crash event in the C15 engine (not a C15 clause): %s %s %s"
-                                                                 % (d["event"], d.get("asan", ""), d.get("frame", "")),
-                                    detail=d.get("stderr_tail", "")[-600:]))
-                rep.note("%s: %s in unit %s recorded as out-of-scope observation" % (mode, d["event"], unit))
-        rep.note("%s: %d executions, %d deaths, %.1fs" % (mode, execs, len(deaths), time.time() - t0))
-        pending.append((mode, lp, scnmap, vpool.submit(validate, mode, lp)))
-        if mode == "guided-v1":
-            sc_f = vpool.submit(selfcheck, lp)
-    tot_n = tot_ev = 0
-    for mode, lp, scnmap, fu in pending:
-        n, nev, rejected, secs = fu.result()
-        tot_n += n
-        tot_ev += nev
-        for ex in vlib.split_executions(lp)[:400000]:
-            evs = ex[1]
-            if len(evs) > 3:
-                rep.distinct.add(hash("".join(evs[1:])))
-        for rj in rejected:
-            hdr = rj["events"][0] if rj["events"] else {}
-            sc = scnmap.get(hdr.get("scn")) or {}
-            cause = analyse(rj["events"], False)
-            rep.violation(dict(engine="mutex", mode=mode, event="MonitorReject", unit=rj["x"], k=hdr.get("k"), ver=sc.get("ver"),
-                               sched=SCHED_NAME.get(sc.get("sched")), cause=cause, scenario=sc,
-                               what="MutexMon rejects an execution recorded in %s mode at event %s of %s (v%s async_mutex, scenario %s, "
-                                    "scheduler %s, %s)" % (mode, rj.get("prefix"), rj.get("total"), sc.get("ver"), sc.get("name"),
-                                                           SCHED_NAME.get(sc.get("sched")), cause),
-                               events=rj["events"]))
-        rep.note("%s: %d executions validated by MutexMon in %.1fs, %d rejected" % (mode, n, secs, len(rejected)))
-        if mode == "random-l2" and n:
-            exs = vlib.split_executions(lp)
-            pick = [e for e in exs if any('"Done"' in x for x in e[1])] or exs
-            rep.sample(dict(kind="recorded-trace", events=[json.loads(x) for x in pick[0][1][:40]]))
-    acc = sc_f.result()
-    vpool.shutdown()
-    rep.traces, rep.events = base_traces + tot_n, base_events + tot_ev      # (the pool's increments may have raced)
-    if acc is True:
-        raise vlib.Broken("monitor self-check failed: MutexMon accepted a recorded trace with one Unlock event removed")
-    rep.note("monitor self-check: a recorded trace with one Unlock removed is %s" % ("rejected" if acc is False else "not available"))
+    execute_runs(ctx, runs, "C15")
     rep.rule("executions = guided replays of TLC behaviours (MutexV1 at full granularity, MutexV2 with list operations atomic) + "
              "DFS(preemption-bounded, two granularities) + seeded random schedules of the real v1/v2 async_mutex; "
              "distinct_nontrivial = distinct recorded event sequences with more than 3 events")
